@@ -133,6 +133,7 @@ var c14firstKey = map[string]int{"bitop": 2, "object": 2, "memory": 2, "xgroup":
 
 func c14body(cs c14case) func() {
 	return func() {
+		vrand.Fair() // random host picks rotate over all service hosts (masters and replicas)
 		cl := cluster.New(2, 2, 2)
 		strat := pbredis.ReadStrategy(cs.Strategy)
 		s := vfStartStack(cl, vfSvcConfig(strat, nil, 0))
@@ -180,6 +181,9 @@ func c14body(cs c14case) func() {
 					reps := 1
 					if !redis5[lname] && supported[lname] && argc >= 1 {
 						reps = 3 // visit every read candidate
+					}
+					if lname == "eval" && argc <= 2 {
+						reps = 7 // (a script without keys: wherever it is sent, never to a replica)
 					}
 					for r := 0; r < reps; r++ {
 						n++
@@ -239,6 +243,13 @@ func c14body(cs c14case) func() {
 								}
 								owner := cl.OwnerOfKey(k)
 								node := cl.NodeByAddrID(e.Node)
+								if write && node != nil && node.MasterOf != nil {
+									sched.Note(fmt.Sprintf("write-command-sent-to-a-replica / %s / strategy=%s", lname, strat), fmt.Sprintf("%q arrived at %s, a replica of %s", args, e.Node, node.MasterOf.ID))
+									continue
+								}
+								if lname == "eval" && len(e.Args) <= 3 {
+									continue // no key: only "not at a replica" is required
+								}
 								onMaster := node == owner
 								onReplica := node != nil && node.MasterOf == owner
 								switch {
